@@ -66,7 +66,7 @@ def hungarian_max(W):
     return ("opt", asg, [-u[i] for i in range(1, n + 1)], [-v[j] for j in range(1, n + 1)])
 
 class C04(Prop):
-    translators = ['mwm']   # MaximumWeightMatching.__init__ / scf regenerated from deterministic_allocation.py on every run (the solver call is an oracle)
+    translators = ['mwm', 'validators']   # MaximumWeightMatching.__init__ / scf regenerated from deterministic_allocation.py on every run (the solver call is an oracle)
     layouts = True
     parallel = 16    # thorough tier: 4^9 matrices, each solved in a forked, killable worker
     pid = "C04"
